@@ -327,6 +327,24 @@ impl Adv {
                 if stale {
                     self.act("stale_qc_proposal_with_tc");
                 }
+                if stale && self.rng.gen_bool(0.5) {
+                    // Falsified TC: genuine timeout signatures, but every reported high-QC round rewritten
+                    // to 0, justifying a proposal on the oldest QC (or genesis). Signatures bind the reported
+                    // round, so correct nodes reject it.
+                    let mut forged = tc.clone();
+                    for v in forged.votes.iter_mut() {
+                        v.2 = 0;
+                    }
+                    let oldest = self.qcs.values().next().cloned().unwrap_or_else(QC::genesis);
+                    let oldest = if self.rng.gen_bool(0.5) { QC::genesis() } else { oldest };
+                    self.act("proposal_with_falsified_tc");
+                    let b = self.sign_block(y, r + 1, oldest, Some(forged), vec![]);
+                    self.blocks.entry(b.digest()).or_insert_with(|| b.clone());
+                    let data = Bytes::from(bincode::serialize(&ConsensusMessage::Propose(b)).unwrap());
+                    for h in self.honest.clone() {
+                        self.send(y, h, data.clone()).await;
+                    }
+                }
                 self.propose(y, r + 1, qc, Some(tc), now_ms).await;
             }
         }
